@@ -48,7 +48,8 @@ class Ctx:
         self.scratch = os.path.join(base, f"verif-{pid}-{os.getpid()}")
         shutil.rmtree(self.scratch, ignore_errors=True)
         os.makedirs(self.scratch, exist_ok=True)
-        self.replay_dir = os.path.join(VERIF, "out", "replay", pid)
+        self.replay_dir = (os.path.join(VERIF, "out", "replay", pid) if os.path.realpath(REPO) == "/repo"
+                           else os.path.join(VERIF, "out", "replay-alt", os.path.basename(os.path.realpath(REPO)), pid))
         os.makedirs(self.replay_dir, exist_ok=True)
         self.known = [k for k in load_known() if k.get("property") == pid]
         self.violations = []      # unlisted
@@ -171,8 +172,12 @@ class Ctx:
             "coverage": cov, "assumptions": self.assumptions,
             "wall_s": round(self.elapsed(), 2), "violations": len(self.violations),
         }
-        os.makedirs(os.path.join(VERIF, "evidence"), exist_ok=True)
-        path = os.path.join(VERIF, "evidence", f"{self.pid}.json")
+        # evidence describes /repo only: a run against a scratch worktree (VERIF_REPO) writes elsewhere
+        evdir = os.environ.get("VERIF_EVIDENCE_DIR") or (
+            os.path.join(VERIF, "evidence") if os.path.realpath(REPO) == "/repo"
+            else os.path.join(VERIF, "out", "evidence-alt", os.path.basename(os.path.realpath(REPO))))
+        os.makedirs(evdir, exist_ok=True)
+        path = os.path.join(evdir, f"{self.pid}.json")
         tmp = path + f".tmp{os.getpid()}"
         with open(tmp, "w") as f:
             json.dump(ev, f, indent=1, default=_json_default)
